@@ -1,17 +1,49 @@
 #!/usr/bin/env python3
-"""setup_cmd: build the library configurations, regenerate Gen, cold-build the Lean package and the driver, warm the audit."""
+"""setup_cmd: build the library configurations, regenerate Gen, cold-build the Lean package and the driver, warm the audit,
+and pre-build every harness (the checks find them in the cache; a changed source tree rebuilds what it affects)."""
 import os, subprocess, sys
 HERE = os.path.dirname(os.path.abspath(__file__))
 VERIF = os.path.dirname(HERE)
 sys.path.insert(0, HERE)
 import buildlib, gen
 from concurrent.futures import ThreadPoolExecutor
+CFGS = ["rel", "rwdi", "dbg", "dbgna", "fence16", "tsm1"]
 with ThreadPoolExecutor(3) as ex:
-    list(ex.map(buildlib.build, ["rel", "rwdi", "dbg"]))
+    list(ex.map(buildlib.build, CFGS))
 r = gen.generate(("rwdi",))
 print("gen:", r["errors"] or "ok")
-p = subprocess.run(["lake", "build"], cwd=os.path.join(VERIF, "lean"))
+lean = subprocess.Popen(["lake", "build"], cwd=os.path.join(VERIF, "lean"))
+H = os.path.join(VERIF, "harness")
+NA = ["-fno-access-control"]
+POOL = NA + ["-I" + os.path.join(buildlib.repo_dir(), "src")]
+jobs = []
+for c in ("rel", "rwdi", "dbg", "dbgna"):
+    jobs.append(("subj_pool", c, POOL))
+    jobs.append(("subj_stack", c, NA))
+for c in ("rwdi", "dbg"):
+    jobs += [("subj_smart", c, NA), ("subj_compose", c, NA)]
+for c in ("rwdi", "dbg", "fence16"):
+    jobs.append(("subj_lowlevel", c, NA))
+for c in ("rwdi", "dbg", "tsm1"):
+    jobs.append(("subj_temp", c, NA))
+jobs += [("subj_arith", "rwdi", NA), ("subj_locks", "rwdi", NA), ("subj_container", "rwdi", NA)]
+
+
+def one(j):
+    name, cfg, flags = j
+    try:
+        buildlib.build_harness(name, cfg, [os.path.join(H, name + ".cpp")], flags)
+        return None
+    except Exception as e:
+        return "%s/%s: %s" % (name, cfg, str(e)[-500:])
+
+
+with ThreadPoolExecutor(8) as ex:
+    errs = [e for e in ex.map(one, jobs) if e]
+for e in errs:
+    print("harness build problem (left to the check that needs it):", e)
+rc = lean.wait()
 # warm `import Lean` used by the audit
 open(os.path.join(buildlib.BUILD, "warm.lean"), "w").write("import Lean\n")
 subprocess.run(["lake", "env", "lean", os.path.join(buildlib.BUILD, "warm.lean")], cwd=os.path.join(VERIF, "lean"))
-sys.exit(p.returncode)
+sys.exit(rc)
